@@ -233,6 +233,11 @@ class Types:
         """"Get all enums from the element list."""
         return [item for item in self.elements if isinstance(item, SubInt)]
 
+    @property
+    def externs(self) -> List[Extern]:
+        """"Get all externs from the element list."""
+        return [item for item in self.elements if isinstance(item, Extern)]
+
 
 @dataclass(frozen=True)
 class Component:
